@@ -7,6 +7,7 @@ MAP = [
     ('unique_entry', 'C02'),
     ('number_of_threads after construction', 'C04'), ('kept the last bootstrap sample', 'C04'),
     ('nested-logit generating function', 'C06'),
+    ('scipy wrapper failed', 'C07'),
     ('bootstrap p-value', 'C08'), ('compile_estimation_results', 'C08'), ('single parameter failed', 'C08'),
     ('count_number_of_groups', 'C09'),
     ('declared with two different types', 'C10'),
